@@ -43,7 +43,7 @@ func Run(ctx *core.Ctx) {
 	perKind := ctx.Pick(3, 12)
 	var cases []*bcase
 	for i := 0; i < nprog; i++ {
-		g := &core.ProgGen{R: r, MaxDepth: 1 + r.Intn(3), Disjoint: i%2 == 0}
+		g := &core.ProgGen{R: r, MaxDepth: 1 + r.Intn(3), Disjoint: i%2 == 0, Rich: true}
 		p := g.Gen()
 		supplyAll(p, g)
 		cases = append(cases, &bcase{Family: "valid", Kind: "none", Prog: p})
